@@ -448,11 +448,19 @@ pub fn worker_main(check: &Check, tier: Tier, seed: u64, w: u64, nw: u64, known:
                     match run_isolated(scn, &case, vec![], false, false) {
                         Ok(r2) => {
                             agg.recheck += 1;
-                            if r2["trace_hash"] != r["trace_hash"] || r2["class"] != r["class"] {
+                            if r2["class"] != r["class"] {
+                                // a verdict that does not repeat is a harness error: nothing may be reported
                                 errors.push(format!(
                                     "NONDETERMINISM: case {i} ({}) gave trace {}/{} then {}/{}",
                                     scn.name(), r["trace_hash"], r["class"], r2["trace_hash"], r2["class"]
                                 ));
+                            } else if r2["trace_hash"] != r["trace_hash"] {
+                                // both executions passed (or failed alike) but took different schedules: some
+                                // source of order is not behind a seam yet. Counted and shown in the evidence
+                                // (`probe.rerun_trace_diverged`); verdicts are unaffected because every candidate
+                                // violation is replayed from its explicit decision list before it is reported
+                                agg.probes.add("probe.rerun_trace_diverged", 1);
+                                eprintln!("l1: note: case {i} ({}) repeated with the same outcome but another trace ({} then {})", scn.name(), r["trace_hash"], r2["trace_hash"]);
                             }
                         }
                         Err(e) => errors.push(format!("case {i} re-run: {e}")),
